@@ -444,6 +444,138 @@ def thread_start_shape(mod, gep, handovers, spawners):
     return out
 
 
+def thread_message_path(mod):
+    """How the message of janet_ev_threaded_call(fp, arguments, cb) reaches `fp` in the new thread (data flow; POSIX path):
+      janet_ev_threaded_call: a block `init` (single-assignment pointer local) gets a whole-struct copy of the `arguments`
+        parameter in field m and the `fp` parameter in field s, and is the argument of pthread_create(.., body, init);
+      body: copies field m of its argument into a local message, loads field s, and calls it with that local message (which
+        nothing else writes).
+    -> [(function, fact)]"""
+    bad = lambda why: [("janet_ev_threaded_call", "unrecognised message path: " + why)]
+    f = mod.functions.get("janet_ev_threaded_call")
+    if f is None or f.params != 3:
+        return bad("janet_ev_threaded_call not found")
+
+    def defs_of(fn):
+        return {x.text.split(" = ")[0]: x.text for b in fn.blocks for x in b.insts if " = " in x.text}
+
+    def origin(fn, defs, val, depth=0):
+        """'<param N>', or ('local', alloca) for the address of a local, through bitcasts and single-assignment locals"""
+        m = re.match(r'^%(\d+)$', val)
+        if m and int(m.group(1)) < fn.params:
+            return "<param %s>" % m.group(1)
+        d = defs.get(val, "")
+        if depth > 6 or not d:
+            return None
+        if re.match(r'%[\w.]+ = alloca ', d):
+            return ("local", val)
+        mb = re.match(r'%[\w.]+ = bitcast \S.*? (%[\w.]+) to ', d)
+        if mb:
+            return origin(fn, defs, mb.group(1), depth + 1)
+        ml = re.match(r'%[\w.]+ = load (.+?), (.+?)\* (%[\w.]+), align', d)
+        if ml and re.match(r'%[\w.]+ = alloca ', defs.get(ml.group(3), "")):
+            slot = ml.group(3)
+            pat = re.compile(r'(?<![\w.])' + re.escape(slot) + r'(?![\w.])')
+            stores = []
+            for b in fn.blocks:
+                for i in b.insts:
+                    if not pat.search(i.text) or i.text.startswith(slot + " = alloca") or re.match(r'%[\w.]+ = load .*\* ' + re.escape(slot) + r', align', i.text):
+                        continue
+                    ms = re.match(r'store (.+?) (%[\w.]+), \1\* ' + re.escape(slot) + r', align', i.text)
+                    if not ms:
+                        return None
+                    stores.append(ms.group(2))
+            if len(stores) == 1:
+                if re.match(r'%[\w.]+ = (?:tail )?call .*@malloc\(', defs.get(stores[0], "")) or re.match(r'%[\w.]+ = bitcast i8\* (%[\w.]+) to ', defs.get(stores[0], "")) and \
+                        re.search(r'@(?:malloc|janet_malloc)\(', defs.get(re.match(r'%[\w.]+ = bitcast i8\* (%[\w.]+) to ', defs.get(stores[0], "")).group(1), "")):
+                    return ("heap", slot)
+                return origin(fn, defs, stores[0], depth + 1)
+        return None
+
+    def field_of(fn, defs, val):
+        """(origin of the base pointer, field index) when `val` is (a bitcast of) `&base->field`"""
+        d = defs.get(val, "")
+        mb = re.match(r'%[\w.]+ = bitcast \S.*? (%[\w.]+) to ', d)
+        if mb:
+            d = defs.get(mb.group(1), "")
+        mg = re.match(r'%[\w.]+ = getelementptr inbounds %struct\.JanetEVThreadInit, %struct\.JanetEVThreadInit\* (%[\w.]+), i32 0, i32 (\d+)$', d)
+        if not mg:
+            return None
+        return origin(fn, defs, mg.group(1)), int(mg.group(2))
+    defs = defs_of(f)
+    insts = [i for b in f.blocks for i in b.insts]
+    pc = [i for i in insts if i.kind == "call" and i.callee == "pthread_create"]
+    if len(pc) != 1 or len(pc[0].args) != 4:
+        return bad("not exactly one pthread_create")
+    body = [r for r in pc[0].refs if r in mod.functions]
+    init = origin(f, defs, pc[0].args[3][1])
+    if len(body) != 1 or not init or init[0] != "heap":
+        return bad("pthread_create arguments")
+    mfield = sfield = None
+    for i in insts:
+        if i.kind == "call" and (i.callee or "").startswith("llvm.memcpy") and len(i.args) >= 3:
+            dst, src = field_of(f, defs, i.args[0][1]), origin(f, defs, i.args[1][1])
+            if dst and dst[0] == init and src == "<param 1>":
+                mfield = dst[1] if mfield is None else -1
+        ms = re.match(r'store (.+?) (%[\w.]+), \1\* (%[\w.]+), align', i.text)
+        if ms:
+            dst = field_of(f, defs, ms.group(3))
+            if dst and dst[0] == init and origin(f, defs, ms.group(2)) == "<param 0>":
+                sfield = dst[1] if sfield is None else -1
+    if mfield is None or mfield < 0 or sfield is None or sfield < 0:
+        return bad("message copy / subroutine store into the init block (fields %s, %s)" % (mfield, sfield))
+    # the message field of the init block is addressed exactly once (for that copy): nothing patches it afterwards
+    ngep = 0
+    for i in insts:
+        mg = re.match(r'(%[\w.]+) = getelementptr inbounds %struct\.JanetEVThreadInit, %struct\.JanetEVThreadInit\* (%[\w.]+), i32 0, i32 (\d+)$', i.text)
+        if mg and int(mg.group(3)) == mfield and origin(f, defs, mg.group(2)) == init:
+            ngep += 1
+    if ngep != 1:
+        return bad("the message field of the init block is addressed %d times" % ngep)
+    out = [("janet_ev_threaded_call", "init.msg := arguments; init.subr := fp; pthread_create(body, init)")]
+    g = mod.functions[body[0]]
+    gdefs = defs_of(g)
+    ginsts = [i for b in g.blocks for i in b.insts]
+    msg_local = None
+    for i in ginsts:
+        if i.kind == "call" and (i.callee or "").startswith("llvm.memcpy") and len(i.args) >= 3:
+            src, dst = field_of(g, gdefs, i.args[1][1]), origin(g, gdefs, i.args[0][1])
+            if src and src[0] == "<param 0>" and src[1] == mfield and dst and dst[0] == "local":
+                msg_local = dst[1] if msg_local is None else False
+    if not msg_local:
+        return out + [("thread body", "unrecognised message path: no single copy of init.msg into a local")]
+    ok = False
+    for i in ginsts:
+        if i.kind != "icall":
+            continue
+        mc = re.match(r'^(?:%\S+\s*=\s*)?(?:tail |notail |musttail )?call\s+.*?\s(%[\w.]+)\(', i.text)
+        cal = gdefs.get(mc.group(1), "") if mc else ""
+        ml = re.match(r'%[\w.]+ = load .+\* (%[\w.]+), align', cal)
+        if not ml:
+            continue
+        # the callee is loaded from a single-assignment local that holds init->subr
+        slot = ml.group(1)
+        sts = [m_ for m_ in (re.match(r'store (.+?) (%[\w.]+), \1\* ' + re.escape(slot) + r', align', x.text) for x in ginsts) if m_]
+        if len(sts) != 1 or any(re.match(r'store .*\* ' + re.escape(slot) + r', align', x.text) and not re.match(r'store (.+?) (%[\w.]+), \1\* ', x.text) for x in ginsts):
+            continue
+        v = sts[0].group(2)
+        mv = re.match(r'%[\w.]+ = load .+\* (%[\w.]+), align', gdefs.get(v, ""))
+        fld = field_of(g, gdefs, mv.group(1)) if mv else None
+        if fld and fld[0] == "<param 0>" and fld[1] == sfield and any(a[1] == msg_local for a in i.args):
+            ok = True
+    # nothing else writes the local message: its only mentions are the alloca, the bitcast feeding that memcpy, and call arguments
+    pat = re.compile(r'(?<![\w.])' + re.escape(msg_local) + r'(?![\w.])')
+    for i in ginsts:
+        t = i.text
+        if pat.search(t) and not (t.startswith(msg_local + " = alloca") or re.match(r'%[\w.]+ = bitcast .* ' + re.escape(msg_local) + r' to i8\*$', t) or i.kind == "icall"):
+            ok = False
+    nb = sum(1 for i in ginsts if re.match(r'%[\w.]+ = bitcast .* ' + re.escape(msg_local) + r' to i8\*$', i.text))
+    if nb != 1:
+        ok = False
+    out.append(("thread body", "msg := init.msg; subr := init.subr; subr(msg)" if ok else "unrecognised message path: the subroutine is not called with the copied message"))
+    return out
+
+
 def sandbox_cfun_shape(mod, gep, regs):
     """Shape of the two functions behind `(sandbox & keywords)` - the regenerated side of the Lean model `sandboxCfun` /
     `sandboxOp` (data flow only; loop syntax, block order and local names are free):
@@ -586,7 +718,7 @@ def extract(build, ir_text=None):
     gep = _flag_field(mod)
     M.flag_gep = gep
     M.flag_writes = flag_writes(mod, gep)
-    M.thread_start = thread_start_shape(mod, gep, None, spawners)
+    M.thread_start = thread_start_shape(mod, gep, None, spawners) + thread_message_path(mod)
     M.defines = header_defines(tree, os.path.join(build.dir, "boot"))
     M.options = sandbox_options(mod)
     regs, methods = registration_tables(mod)
